@@ -1691,6 +1691,9 @@ func propC07(r *Run) {
 	for _, t := range leakTexts() {
 		c.scanCase("leak-then-rewind", []byte(t), false)
 	}
+	for _, t := range contigLineTexts() {
+		c.scanCase("contig-line", []byte(t), false)
+	}
 	c.timeOracle()
 	c.timeFamilies()
 	for _, cf := range corpus {
